@@ -601,7 +601,8 @@ def origin(body, op_or_place, depth=16, carriers=CARRIERS):
                         return ("const", k)
                     pl = op_place(a)
                     continue
-            return ("unknown", pl)
+                return ("unknown", pl)
+            return ("rv", rv, b)
         return ("rv", rv, b)
     return ("unknown", pl)
 
